@@ -134,6 +134,43 @@ def fam_fail(seed, i):
     return sc
 
 
+def fam_awaiters(seed, i):
+    """C02 C04 C06 C14: address awaits in every shape - by value, by reference (first polled while the actor is alive,
+    or only after it ended), again on the same handle, on clones made before / after the termination - around a
+    graceful stop, a last-handle drop, or a failure."""
+    rng = random.Random(f"awaiters-{seed}-{i}")
+    sc = base("awaiters", seed, i, rng, horizon=6)
+    end = rng.choice(["stop", "stop", "ctx_stop", "panic", "start_err", "stopped_panic", "cancel"])
+    cfg = {"cap": rng.choice([-1, -1, 1]), "pscr": [Y] * rng.choice([0, 1]), "sscr": [[Y] * rng.choice([0, 1])]}
+    if end == "start_err":
+        cfg["sscr"] = [[Y] * rng.choice([0, 1]) + [eff("err")]]
+    elif end == "stopped_panic":
+        cfg["pscr"] = [Y] * rng.choice([0, 1]) + [eff("panic")]
+    elif end == "cancel":
+        sc["cancels"] = 1
+        sc["cancel_pct"] = rng.choice([10, 25])
+    ncl = rng.randint(2, 4)
+    names = [f"c{k+1}" for k in range(ncl)]
+    kinds = {c: "addr" for c in names}
+    main, handles = setup_main(rng, cfg, kinds, rng.random() < 0.3, entry=rng.choice(["builder", "plain"]))
+    sc["clients"]["main"] = main
+    w = {"await_ref": 6, "await": 2, "clone": 4, "stopped": 2, "running": 2, "yield": 3, "drop": 1, "halt": 0.7, "downgrade": 0.5,
+         "upgrade": 0.7, "try_halt": 0.5, "call": 1.5, "send": 1}
+    scripts = [[], [Y]]
+    if end == "panic":
+        scripts += [[eff("panic")], [Y, eff("panic")]]
+    elif end == "ctx_stop":
+        scripts += [[eff("ctx_stop")], [Y, eff("ctx_stop")]]
+    else:
+        w["stop"] = 2.5
+    cnt = [0]
+    for c in names:
+        p = Prog(rng, c, handles.get(c, {}), w, scripts, cnt)
+        p.cancel_p = 0.15
+        sc["clients"][c] = p.run(rng.randint(3, 9))
+    return sc
+
+
 def fam_restart(seed, i):
     """C07: restart requests through Addr::restart and Context::restart, all strategies."""
     rng = random.Random(f"restart-{seed}-{i}")
@@ -246,6 +283,49 @@ def fam_timers(seed, i):
     return sc
 
 
+def tree_sibling_failure(sc, rng):
+    """A parent with 2-4 children in one broadcast bucket; one child dies of a failure (or just ends) while its siblings
+    are healthy; the parent keeps broadcasting: the siblings must keep receiving (C06: the damage is confined, C16)."""
+    n = rng.randint(2, 4)
+    kids = [f"a{k+2}" for k in range(n)]
+    b = rng.choice(["register_bc", "register_bc2", "add_child"])
+    bc = {"register_bc": "broadcast_bc", "register_bc2": "broadcast_bc2", "add_child": "broadcast_unit"}[b]
+    victim = rng.choice(kids[:-1]) if rng.random() < 0.8 else kids[-1]
+    how = rng.choice(["panic", "panic", "start_err", "ctx_stop", "cancel"])
+    main = [{"op": "spawn", "a": "a1", "nh": "r_a1", "entry": "builder",
+             "cfg": {"cap": -1, "pscr": [Y] * rng.choice([0, 1]), "sscr": [[eff(b, 0, f"r_{x}") for x in kids]], "strat": "restart"}}]
+    pre = []
+    for x in kids:
+        sscr = [Y] * rng.choice([0, 1])
+        if x == victim and how == "start_err":
+            sscr = sscr + [eff("err")]
+        pre.append({"op": "spawn", "a": x, "nh": f"r_{x}", "entry": "builder", "cfg": {"cap": rng.choice([-1, 1, 2]), "pscr": [], "sscr": [sscr]}})
+        if x == victim:
+            pre.append({"op": "clone", "h": f"r_{x}", "nh": "e_v", "to": "c1"})
+        pre.append({"op": "give", "h": f"r_{x}", "to": "a1"})
+    # (children are spawned and handed over before the parent starts, so that started() can register them)
+    main = [main[0]] + pre
+    # spawn order matters for the executor's actor numbering: parent first, then the children; the parent's started()
+    # runs only when it is first polled, after main has given it the handles
+    main.append({"op": "clone", "h": "r_a1", "nh": "h_c1", "to": "c1"})
+    main.append({"op": "clone", "h": "r_a1", "nh": "h_c2", "to": "c2"})
+    main.append({"op": "drop", "h": "r_a1"})
+    sc["clients"]["main"] = main
+    if how == "cancel":
+        sc["cancels"] = 1
+        sc["cancel_pct"] = 25
+    kill = {"panic": [eff("panic")], "ctx_stop": [eff("ctx_stop")], "start_err": [], "cancel": [Y, Y]}[how]
+    c1 = [{"op": "call", "h": "h_c1", "scr": [eff(bc)]}, {"op": "send", "h": "e_v", "scr": kill}, {"op": "yield"}]
+    c1 += [{"op": "call", "h": "h_c1", "scr": [eff(bc)] + [Y] * rng.choice([0, 1])} for _ in range(rng.randint(1, 3))]
+    c1 += [{"op": "drop", "h": "e_v"}, {"op": "call", "h": "h_c1", "scr": [eff(bc)]}]
+    c2 = [{"op": rng.choice(["send", "call"]), "h": "h_c2", "scr": rng.choice([[eff(bc)], [], [Y]])} for _ in range(rng.randint(1, 4))]
+    if rng.random() < 0.5:
+        c2.append({"op": "stop", "h": "h_c2"})
+    sc["clients"]["c1"] = c1
+    sc["clients"]["c2"] = c2
+    return sc
+
+
 def fam_tree(seed, i):
     """C16: actor trees (depth <= 3, <= 6 nodes), children under different buckets, some also held from
     outside, parent terminated by every cause; broadcasts."""
@@ -261,6 +341,8 @@ def fam_tree(seed, i):
         parent[nodes[k]] = p
         depth[nodes[k]] = depth[p] + 1
     fault = rng.choice(["none", "none", "panic", "cancel", "start_err"])
+    if rng.random() < 0.2:
+        return tree_sibling_failure(sc, rng)
     if fault == "cancel":
         sc["cancels"] = 1
         sc["cancel_pct"] = rng.choice([4, 10])
@@ -424,4 +506,4 @@ def fam_broker(seed, i):
     return sc
 
 
-FAMILIES = {"core": fam_core, "life": fam_life, "fail": fam_fail, "restart": fam_restart, "timeout": fam_timeout, "timers": fam_timers, "tree": fam_tree, "registry": fam_registry, "stream": fam_stream, "broker": fam_broker}
+FAMILIES = {"core": fam_core, "awaiters": fam_awaiters, "life": fam_life, "fail": fam_fail, "restart": fam_restart, "timeout": fam_timeout, "timers": fam_timers, "tree": fam_tree, "registry": fam_registry, "stream": fam_stream, "broker": fam_broker}
